@@ -170,14 +170,12 @@ def chunkLoop (errAt : Option Nat) (p : String) (size : Nat) (mtime : Int) :
     FileScript → XState → Nat → Option ErrKind × XState × Nat
   | [], x, off => (some .unexpected, x, off)         -- the `Error` response that follows the script
   | (data, more) :: rest, x, off =>
-    if off + data.length > size then (none, x, off)  -- early stop; the final length check fails
+    if off + data.length > size then (some .sizeChanged, x, off)  -- the source grew: error at once
     else
-      let x := x.sendDest (.createOrUpdateFile p data (if more then none else some mtime) more)
-      let off := off + data.length
-      let (e, x) := x.poll errAt
-      if e then (some .doer, x, off)
-      else if more then chunkLoop errAt p size mtime rest x off
-      else (none, x, off)
+      let r := (x.sendDest (.createOrUpdateFile p data (if more then none else some mtime) more)).poll errAt
+      if r.1 then (some .doer, r.2, off + data.length)
+      else if more then chunkLoop errAt p size mtime rest r.2 (off + data.length)
+      else (none, r.2, off + data.length)
 
 /-- A file without a script is answered with an `Error` response (= the empty script). -/
 def fileScript (files : List (String × FileScript)) (p : String) : FileScript :=
